@@ -54,6 +54,10 @@ def run(tier, seed, replay=None):
         files = [(rel, cr.blob_from_token(t)) for rel, t in c["files"]]
         run_case(run, drv, files, c["pl"], c["single"], c.get("via_cli", False), "replay")
     else:
+        from harness.common import corpus_cases
+        for c in corpus_cases("C15"):
+            files = [(rel, cr.blob_from_token(t)) for rel, t in c["files"]]
+            run_case(run, drv, files, c["pl"], c["single"], c.get("via_cli", False), "corpus")
         for _ in range(120 if tier == "quick" else 1200):
             files, pl, single = cr.make_case(run.rng, tier, single_p=0.2)
             run_case(run, drv, files, pl, single, run.rng.random() < 0.3, "random")
